@@ -197,6 +197,10 @@ def apply_op(arr, model, d, kind, subtype, ctx):
             res = obj.iloc[ix]
         elif d["how"] == 1:
             res = obj.loc[[labels[i] for i in ix]]
+        elif op == "series" and len(set(ix)) == len(ix):
+            # wrapping the labelled series again with an explicit index selects by label, as pandas defines
+            res = GeoSeries(obj, index=[labels[i] for i in ix])
+            ctx.count("relabelled_series_checks")
         else:
             res = obj.iloc[ix]
         if op == "frame":
